@@ -233,6 +233,11 @@ def contains(engine, st, c, x):
         yield st, c.origin[1][bx]  # the list enumerates exactly this set
     elif k == "list":
         st, bx = engine.boxed(st, x)
+        n = z3.simplify(c.t[0])
+        if z3.is_int_value(n) and n.as_long() <= 40:
+            # a literal list: plain disjunction (no quantifier)
+            yield st, Or(*[z3.simplify(c.t[1][i]) == bx for i in range(n.as_long())])
+            return
         i = S.fresh("i", S.Int)
         yield st, z3.Exists([i], And(0 <= i, i < c.t[0], c.t[1][i] == bx))
     elif k == "tuple":
@@ -448,8 +453,27 @@ def load_attr(engine, st, o, attr, node):
                 if attr in engine.repo.all_fields(c) or engine.repo.find_method(c, attr) is not None or engine.repo.find_class_attr(c, attr) is not None or engine.field_type(c.name, attr) is not None:
                     cands.append(c)
             cands.sort(key=lambda c: c.name)
+            # opaque (third-party) classes that are modelled with this member
+            rest0 = st
+            handled = False
+            for oname in sorted(engine.opaque_classes):
+                oc = engine.opaque_classes[oname]
+                if attr in oc.get("fields", {}) or attr in oc.get("methods", {}) or attr in oc.get("props", {}):
+                    nxt = None
+                    for st1, hit in engine.fork(rest0, And(V.is_obj(o.t), S.cls_of(V.oid(o.t)) == class_id(oname))):
+                        if hit:
+                            yield from load_obj_attr(engine, st1, sv_v(o.t, TObj(oname)), oname, attr, node)
+                        else:
+                            nxt = st1
+                    if nxt is None:
+                        return
+                    rest0 = nxt
+            st = rest0
             if not cands:
                 # a method of an external object (e.g. environ["wsgi.input"].read): opaque -- returns anything or raises
+                if engine.spec_ctx or engine.spec_depth:
+                    yield st, Raised("AttributeError", where=f"<dynamic>.{attr}")
+                    return
                 engine.used_models.add(f"opaque-external-method:{attr}")
 
                 def opaque(engine, st, args, kwargs, node, attr=attr):
